@@ -116,16 +116,22 @@ void cimba_run_experiment(void *your_experiment_array,
     /* Start the worker threads and let them help themselves to the trials */
     const uint32_t ncores = cmi_cpu_cores();
     pthread_t *threads = cmi_calloc(ncores, sizeof(*threads));
-    for (uint64_t ui = 0u; ui < ncores; ui++) {
-        pthread_create(&threads[ui], NULL, worker_thread_func, (void *)ui);
-    }
+    do {
+        for (uint64_t ui = 0u; ui < ncores; ui++) {
+            pthread_create(&threads[ui], NULL, worker_thread_func, (void *)ui);
+        }
 
-    /* ...worker threads are executing your trials in the background here... */
+        /* ...worker threads are executing your trials in the background here... */
 
-    /* Wait for all worker threads to finish */
-    for (uint64_t ui = 0u; ui < ncores; ui++) {
-        pthread_join(threads[ui], NULL);
-    }
+        /* Wait for all worker threads to finish */
+        for (uint64_t ui = 0u; ui < ncores; ui++) {
+            pthread_join(threads[ui], NULL);
+        }
+
+        /* A trial that calls cmb_logger_error() ends its worker thread. If that
+         * has happened to all of them, there may be trials left that nobody has
+         * started: go again with a fresh set of workers until none remain. */
+    } while (__atomic_load_n(&cmg_next_trial_idx, __ATOMIC_SEQ_CST) < cmg_total_trials);
 
     cmi_free(threads);
 }
